@@ -81,10 +81,37 @@ fn show(chunk: &BytecodeChunk, op: &Op) -> String {
     }
 }
 
+fn counters() -> (u64, u64) {
+    use std::sync::atomic::Ordering;
+    (
+        tsrun::compiler::VERIF_BAD_FREES.load(Ordering::Relaxed),
+        tsrun::compiler::VERIF_BAD_ALLOCS.load(Ordering::Relaxed),
+    )
+}
+
+/// `P<TAB>json string of a whole program`: compile it (all nested functions too) and report how often
+/// the register allocator was asked to free a register that was not held, or handed out a held one
+fn discipline(json_src: &str) -> String {
+    let src: String = match serde_json::from_str(json_src) {
+        Ok(s) => s,
+        Err(_) => return "bad-case".into(),
+    };
+    let mut dict = StringDict::new();
+    let program = match Parser::new(&src, &mut dict).parse_program() {
+        Ok(p) => p,
+        Err(_) => return "parse-error".into(),
+    };
+    let (f0, a0) = counters();
+    let r = Compiler::compile_program(&program);
+    let (f1, a1) = counters();
+    format!("{} badfree={} badalloc={}", if r.is_ok() { "ok" } else { "ERR" }, f1 - f0, a1 - a0)
+}
+
 /// line: `C<TAB>source of one statement` → listing, `ERR` when the compiler refuses
 pub fn line(l: &str) -> String {
     let src = match l.split_once('\t') {
         Some(("C", s)) => s,
+        Some(("P", s)) => return discipline(s),
         _ => return "bad-case".into(),
     };
     let mut dict = StringDict::new();
